@@ -489,6 +489,53 @@ def native_clip(rep, prog, rule, floor=10):
     rep.floor(rule, "destination stores in the portable kernels", n, floor)
 
 
+def tail_initial(rep, prog, rule, floor=4):
+    """the rounding constant handed to the portable tail routines is half a unit"""
+    rep.rule(rule, "every call of a crate-local convolution routine that takes the accumulator's start value "
+             "as a parameter named `initial` (the portable column routines convolution_by_u8 / _u16 that "
+             "the SIMD vertical kernels use for the last components of a row) passes HALF A UNIT of the "
+             "fixed-point scale, `1 << (precision - 1)`, or the caller's own `initial` parameter: the sum "
+             "is shifted right by the precision afterwards, so any other start value (the shift amount "
+             "itself, 0) turns round-to-nearest into truncation for those components -- a flat image "
+             "whose quantised weights sum to 2^p - 1 comes out one level BELOW its value")
+    n = 0
+    for f in sorted(prog.fns.values(), key=lambda x: x.id):
+        if not f.name.startswith("convolution::"):
+            continue
+        sym = None
+        for c in f.calls():
+            for t in prog.call_targets(c):
+                if not t.name.startswith("convolution::"):
+                    continue
+                idx = [i for i in range(1, t.arg_count + 1) if t.local_name(i) == "initial"]
+                if not idx or idx[0] - 1 >= len(c.args):
+                    continue
+                sym = sym or Sym(f)
+                e = sym.operand(c.args[idx[0] - 1], (c.bb, "term"))
+                s_ = fmt(e)
+                n += 1
+                rep.touch(f)
+                key = "%s|%s|initial" % (f.name, short(t.name))
+                e0 = e
+                while isinstance(e0, tuple) and e0 and e0[0] in ("cast", "copy"):
+                    e0 = e0[2] if e0[0] == "cast" else e0[1]
+                if isinstance(e0, tuple) and e0 and e0[0] == "bin" and e0[1] == "Shl" and \
+                        e0[2][0] == "const" and e0[2][1] == 1 and re.search(r"Sub", fmt(e0[3])):
+                    rep.ok(rule, key, c.at, "initial = %s" % s_[:80])
+                elif isinstance(e0, tuple) and e0 and e0[0] in ("param", "local") and "initial" in s_:
+                    rep.ok(rule, key, c.at, "the caller's own `initial` is passed on")
+                elif "Shl" not in s_ and "initial" not in s_ and "@bb" not in s_:
+                    rep.bad(rule, key + "|not-half-unit", c.at,
+                            "%s passes `%s` as the start value `initial` of %s: not 1 << (precision - 1), "
+                            "so the components this call computes are not rounded to nearest (they are "
+                            "truncated: up to one level below the SIMD columns next to them and below the "
+                            "smallest source value of a flat image)" % (f.name, s_[:80], t.name))
+                else:
+                    rep.unk(rule, key, c.at, "initial = %s" % s_[:100])
+                break
+    rep.floor(rule, "calls that pass a start value `initial`", n, floor)
+
+
 MOVEMASK_LANES = {"_mm_movemask_ps": 4, "_mm256_movemask_ps": 8, "_mm_movemask_pd": 2,
                   "_mm256_movemask_pd": 4, "_mm_movemask_epi8": 16, "_mm256_movemask_epi8": 32}
 
